@@ -35,7 +35,7 @@ NDim == Len(UInfo[CHOOSE u \in DOMAIN UInfo : TRUE].dim)
 \* the exact-ratio family (factor to base dimensions; dimension vector in the library's order m g s K C cd mol rad)
 DV(m, g, s_, rad) == <<m, g, s_, 0, 0, 0, 0, rad>>
 ExactUnits ==
-  [u \in {"m", "c:m", "k:m", "s", "m:s", "g", "k:g", "%", "rad"} |->
+  [u \in {"m", "c:m", "k:m", "s", "m:s", "g", "k:g", "%", "rad", "m:rad"} |->
      CASE u = "m"   -> [dim |-> DV(1, 0, 0, 0), fac |-> <<1, 1>>]
        [] u = "c:m" -> [dim |-> DV(1, 0, 0, 0), fac |-> <<1, 100>>]
        [] u = "k:m" -> [dim |-> DV(1, 0, 0, 0), fac |-> <<1000, 1>>]
@@ -44,7 +44,8 @@ ExactUnits ==
        [] u = "g"   -> [dim |-> DV(0, 1, 0, 0), fac |-> <<1, 1>>]
        [] u = "k:g" -> [dim |-> DV(0, 1, 0, 0), fac |-> <<1000, 1>>]
        [] u = "%"   -> [dim |-> DV(0, 0, 0, 0), fac |-> <<1, 100>>]
-       [] u = "rad" -> [dim |-> DV(0, 0, 0, 1), fac |-> <<1, 1>>]]
+       [] u = "rad" -> [dim |-> DV(0, 0, 0, 1), fac |-> <<1, 1>>]
+       [] u = "m:rad" -> [dim |-> DV(0, 0, 0, 1), fac |-> <<1, 1000>>]]
 
 -----------------------------------------------------------------------------
 \* exponent maps
